@@ -6,6 +6,7 @@ import (
 	"context"
 	"errors"
 	"fmt"
+	"io"
 	"math/rand"
 	"strings"
 	"sync"
@@ -127,7 +128,7 @@ func FamConc[T any](c Codec[T], seed int64) SysRecord {
 			from, rem = "B", p.rb
 		}
 		tag := 100 + i
-		kind := r.Intn(4)
+		kind := r.Intn(6)
 		x := int64(r.Intn(1000))
 		s := GenString(r)
 		wg.Add(1)
@@ -148,9 +149,17 @@ func FamConc[T any](c Codec[T], seed int64) SysRecord {
 				c.Method, c.Arg = "FailVal", canon([]any{int(x), "e" + s})
 				v, err := rem.FailVal(context.Background(), tag, int(x), "e"+s)
 				c.Ret, c.Err = canon(v), errText(err)
-			default:
+			case 3:
 				c.Method, c.Arg = "Sub.Deep.Ping", "null"
 				v, err := rem.Sub.Deep.Ping(context.Background(), tag)
+				c.Ret, c.Err = canon(v), errText(err)
+			case 4: // a function declared after a nested struct, inside the nested struct
+				c.Method, c.Arg = "Sub.Ping", "null"
+				v, err := rem.Sub.Ping(context.Background(), tag)
+				c.Ret, c.Err = canon(v), errText(err)
+			default: // ... and at the top level
+				c.Method, c.Arg = "After", "null"
+				v, err := rem.After(context.Background(), tag)
 				c.Ret, c.Err = canon(v), errText(err)
 			}
 			c.Done = true
@@ -200,7 +209,7 @@ func FamValues[T any](c Codec[T], stream bool, chunk int, seed int64, n int) Sys
 		}
 		tag := 200 + i
 		cl := SysCall{Tag: tag, From: from}
-		switch r.Intn(9) {
+		switch r.Intn(12) {
 		case 0:
 			x := []int64{0, 1, -1, 1 << 40, -(1 << 40), 9007199254740991, int64(r.Intn(100000))}[r.Intn(7)]
 			cl.Method, cl.Arg, cl.Oracle = "EchoInt", canon(x), roundTrip(c, x)
@@ -255,6 +264,23 @@ func FamValues[T any](c Codec[T], stream bool, chunk int, seed int64, n int) Sys
 			cl.Oracle = "[" + strings.Join([]string{roundTrip(c, a), roundTrip(c, b2), roundTrip(c, cc), roundTrip(c, d), roundTrip(c, e), roundTrip(c, f), roundTrip(c, g)}, ",") + "]"
 			v, err := rem.Multi(ctx, tag, a, b2, cc, d, e, f, g)
 			cl.Ret, cl.Err = v, errText(err)
+		case 8: // a value that accompanies an error
+			x := 1 + r.Intn(100000)
+			msg := "partial " + GenString(r) + "."
+			cl.Method, cl.Arg, cl.Oracle, cl.Extra = "FailVal", canon([]any{x, msg}), roundTrip(c, x), msg
+			v, err := rem.FailVal(ctx, tag, x, msg)
+			cl.Ret, cl.Err = canon(v), errText(err)
+		case 9:
+			s := GenRec(r, 2)
+			msg := "partially processed."
+			cl.Method, cl.Arg, cl.Oracle, cl.Extra = "PartialStruct", canon(s), roundTrip(c, s), msg
+			v, err := rem.PartialStruct(ctx, tag, s, msg)
+			cl.Ret, cl.Err = canon(v), errText(err)
+		case 10: // named non-struct types
+			cn, nm := Count([]uint64{0, 7, 1 << 40}[r.Intn(3)]), Name(GenString(r))
+			cl.Method, cl.Arg, cl.Oracle = "EchoNamed", canon([]any{cn, nm}), "["+roundTrip(c, cn)+","+roundTrip(c, nm)+"]"
+			v, err := rem.EchoNamed(ctx, tag, cn, nm)
+			cl.Ret, cl.Err, cl.Extra = canon(v), errText(err), canon(cn+Count(len(nm)))
 		default:
 			cl.Method, cl.Arg, cl.Oracle = "Zero", "null", "null"
 			cl.Tag = 0
@@ -316,7 +342,34 @@ func FamErrors[T any](c Codec[T], stream bool, chunk int, seed int64, n int) Sys
 		tag := 300 + i
 		msg := msgs[r.Intn(len(msgs))]
 		cl := SysCall{Tag: tag, From: from, Arg: canon(msg)}
-		switch r.Intn(4) {
+		switch r.Intn(7) {
+		case 4: // the handler declares a concrete error type as its only result
+			cl.Method = "FailConcrete"
+			err := rem.FailConcrete(ctx, tag, msg)
+			cl.Ret, cl.Err = "null", errText(err)
+			if err == nil {
+				cl.Err = "<nil>"
+			}
+		case 5: // application errors that wrap errors panrpc itself uses as signals
+			k := r.Intn(7)
+			cl.Method, cl.Arg = "FailWrap", canon(wrapErr(k).Error())
+			cctx, ccancel := context.WithTimeout(ctx, 3*time.Second)
+			err := rem.FailWrap(cctx, tag, k)
+			ccancel()
+			cl.Ret, cl.Err = "null", errText(err)
+			if err == nil {
+				cl.Err = "<nil>"
+			}
+		case 6:
+			k := r.Intn(7)
+			cl.Method, cl.Arg, cl.Extra = "FailVal", canon(wrapErr(k).Error()), fmt.Sprint(tag)
+			cctx, ccancel := context.WithTimeout(ctx, 3*time.Second)
+			v, err := rem.FailWrapVal(cctx, tag, k)
+			ccancel()
+			cl.Ret, cl.Err = canon(v), errText(err)
+			if err == nil {
+				cl.Err = "<nil>"
+			}
 		case 0:
 			cl.Method = "Fail"
 			err := rem.Fail(ctx, tag, msg)
@@ -417,6 +470,50 @@ func FamClosures[T any](c Codec[T], stream bool, chunk int, seed int64, n int) S
 		if n := node.Reg.VerifClosureCount(); n != 0 {
 			rec.Notes = append(rec.Notes, fmt.Sprintf("CLOSURES-REMAIN tag=%d count=%d after the call returned", tag, n))
 		}
+	}
+	// closure parameters of named non-struct types (kind-equal to what the serializer decodes, not type-equal)
+	{
+		var mu sync.Mutex
+		var runs []string
+		pctx, pcancel := context.WithTimeout(ctx, 5*time.Second)
+		v, err := p.ra.IterNamed(pctx, 489, func(ctx context.Context, cn Count, nm Name, ra Ratio, sm Small) (Count, error) {
+			mu.Lock()
+			runs = append(runs, canon([]any{cn, nm, ra, sm}))
+			mu.Unlock()
+			return cn + Count(len(nm)), nil
+		})
+		pcancel()
+		mu.Lock()
+		rec.Calls = append(rec.Calls, SysCall{Tag: 489, From: "A", Method: "IterNamed", Ret: v, Err: errText(err), Done: true, Extra: strings.Join(runs, "|")})
+		mu.Unlock()
+	}
+	// ... of named integer types only (the serializers decode numbers differently)
+	{
+		pctx, pcancel := context.WithTimeout(ctx, 5*time.Second)
+		v, err := p.ra.IterCount(pctx, 487, func(ctx context.Context, cn Count, sm Small) (Count, error) { return cn + Count(sm+1), nil })
+		pcancel()
+		rec.Calls = append(rec.Calls, SysCall{Tag: 487, From: "A", Method: "IterCount", Ret: v, Err: errText(err), Done: true})
+	}
+	// two closures in one call: each callable reaches its own function
+	{
+		var mu sync.Mutex
+		var runs []string
+		pctx, pcancel := context.WithTimeout(ctx, 5*time.Second)
+		v, err := p.rb.Two(pctx, 488, func(ctx context.Context, x int) (int, error) {
+			mu.Lock()
+			runs = append(runs, fmt.Sprintf("f%d", x))
+			mu.Unlock()
+			return x + 10, nil
+		}, func(ctx context.Context, x int) (int, error) {
+			mu.Lock()
+			runs = append(runs, fmt.Sprintf("g%d", x))
+			mu.Unlock()
+			return x + 20, nil
+		})
+		pcancel()
+		mu.Lock()
+		rec.Calls = append(rec.Calls, SysCall{Tag: 488, From: "B", Method: "Two", Ret: v, Err: errText(err), Done: true, Extra: strings.Join(runs, "|")})
+		mu.Unlock()
 	}
 	// a later argument cannot be encoded: the call fails before anything is written, and the closure that
 	// was registered for the earlier argument must be gone again
@@ -821,6 +918,162 @@ func FamInForRemotes[T any](c Codec[T], stream bool, chunk int, seed int64) SysR
 	}
 	p.l.CancelA()
 	p.l.CancelB()
+	rec.Events = p.w.Events()
+	return rec
+}
+
+// ---- C04 (black box): cancellation of calls that carry closures, and of closure invocations ----
+func FamCancel[T any](c Codec[T], stream bool, chunk int, seed int64) SysRecord {
+	rec := SysRecord{Family: "cancel", Config: cfgName(c.Name, stream, chunk), Seed: seed}
+	p, err := newPair(c, stream, chunk, seed)
+	if err != nil {
+		rec.Notes = append(rec.Notes, err.Error())
+		return rec
+	}
+	ctx, cancel := context.WithTimeout(context.Background(), 30*time.Second)
+	defer cancel()
+	add := func(cl SysCall) { rec.Calls = append(rec.Calls, cl) }
+	probe := func(tag int, what string) {
+		for k, rem := range []sysRemote{p.ra, p.rb} {
+			pctx, pcancel := context.WithTimeout(ctx, 3*time.Second)
+			v, err := rem.EchoInt(pctx, tag+2*k, 42)
+			add(SysCall{Tag: tag + 2*k, From: []string{"A", "B"}[k], Method: "Probe", Ret: canon(v), Err: errText(err), Done: true, Extra: what})
+			v3, err3 := rem.Iter(pctx, tag+2*k+1, 1, func(ctx context.Context, i int, s string, xs []int, b bool) (string, error) { return "p", nil })
+			pcancel()
+			add(SysCall{Tag: tag + 2*k + 1, From: []string{"A", "B"}[k], Method: "ProbeClosure", Ret: v3, Err: errText(err3), Done: true, Extra: what})
+		}
+	}
+	// 1. a call that passes a closure is cancelled while its handler waits; the peer then invokes the
+	//    stale closure; afterwards plain and closure-carrying calls still work in both directions
+	{
+		cctx, ccancel := context.WithCancel(ctx)
+		ran := false
+		done := make(chan SysCall, 1)
+		go func() {
+			v, err := p.ra.Delayed(cctx, 700, func(ctx context.Context, x int) (int, error) { ran = true; return x, nil })
+			done <- SysCall{Tag: 700, From: "A", Method: "CancelledWithClosure", Ret: canon(v), Err: errText(err), Done: true}
+		}()
+		if !waitUntil(func() bool { return hasInv(p.w, "Delayed", 700) }, 3*time.Second) {
+			rec.Notes = append(rec.Notes, "handler of the to-be-cancelled call never started")
+		}
+		ccancel()
+		select {
+		case cl := <-done:
+			add(cl)
+		case <-time.After(3 * time.Second):
+			add(SysCall{Tag: 700, From: "A", Method: "CancelledWithClosure", Err: "DID-NOT-RETURN"})
+			rec.Hang = true
+		}
+		if n := p.a.Reg.VerifClosureCount(); n != 0 {
+			rec.Notes = append(rec.Notes, fmt.Sprintf("CLOSURES-REMAIN tag=700 count=%d after the cancelled call returned", n))
+		}
+		// the handler now invokes the closure of the cancelled call: an application-level error for it
+		close(p.w.gate(700))
+		if !waitUntil(func() bool { return hasRet(p.w, "Delayed", 700) }, 3*time.Second) {
+			rec.Notes = append(rec.Notes, "the handler's invocation of the stale closure did not return")
+		}
+		add(SysCall{Tag: 701, From: "B", Method: "StaleInvoke", Extra: fmt.Sprint(ran), Done: true})
+		probe(710, "after a cancelled closure-carrying call and a stale invocation")
+	}
+	// 2. a handler invokes the peer's closure with a context of its own and cancels it while the
+	//    closure runs: that invocation returns promptly with the context's error, the next one works
+	{
+		release := make(chan struct{})
+		pctx, pcancel := context.WithTimeout(ctx, 12*time.Second)
+		v, err := p.ra.IterCtx(pctx, 720, func(ctx context.Context, x int) (int, error) {
+			if x == 1 {
+				close(p.w.gate(721))
+				<-release
+				return 100, nil
+			}
+			return x, nil
+		})
+		pcancel()
+		close(release)
+		add(SysCall{Tag: 720, From: "A", Method: "IterCtx", Ret: v, Err: errText(err), Done: true})
+		probe(730, "after a cancelled closure invocation")
+	}
+	rec.LinkA, rec.LinkB = p.close()
+	rec.Events = p.w.Events()
+	return rec
+}
+
+func hasInv(w *sysWorld, m string, tag int) bool {
+	for _, e := range w.Events() {
+		if e.Kind == "inv" && e.Method == m && e.Tag == tag {
+			return true
+		}
+	}
+	return false
+}
+func hasRet(w *sysWorld, m string, tag int) bool {
+	for _, e := range w.Events() {
+		if e.Kind == "ret" && e.Method == m && e.Tag == tag {
+			return true
+		}
+	}
+	return false
+}
+
+// ---- C08 (and C03): a handler is still running when the peer hangs up; nobody cancels anything ----
+func FamCtxEnd[T any](c Codec[T], stream bool, chunk int, seed int64) SysRecord {
+	rec := SysRecord{Family: "ctxend", Config: cfgName(c.Name, stream, chunk), Seed: seed}
+	p, err := newPair(c, stream, chunk, seed)
+	if err != nil {
+		rec.Notes = append(rec.Notes, err.Error())
+		return rec
+	}
+	ctx, cancel := context.WithTimeout(context.Background(), 20*time.Second)
+	defer cancel()
+	done := make(chan SysCall, 1)
+	go func() {
+		v, err := p.ra.GateCtx(ctx, 750)
+		cls := "error"
+		if err == nil {
+			cls = "nil"
+		}
+		done <- SysCall{Tag: 750, From: "A", Method: "GateCtxInFlight", Ret: canon(v), Err: cls, Done: true}
+	}()
+	if !waitUntil(func() bool { return hasInv(p.w, "GateCtx", 750) }, 3*time.Second) {
+		rec.Notes = append(rec.Notes, "handler never started")
+	}
+	p.l.CloseTransport(io.EOF) // the peer hangs up; no context is cancelled by the application
+	endB := "LINK-B-DID-NOT-RETURN"
+	select {
+	case e := <-p.l.ErrB:
+		endB = "returned"
+		_ = e
+	case <-time.After(3 * time.Second):
+	}
+	select {
+	case cl := <-done:
+		rec.Calls = append(rec.Calls, cl)
+	case <-time.After(3 * time.Second):
+		rec.Calls = append(rec.Calls, SysCall{Tag: 750, From: "A", Method: "GateCtxInFlight", Err: "DID-NOT-RETURN"})
+	}
+	rec.Calls = append(rec.Calls, SysCall{Tag: 751, From: "B", Method: "LinkAfterPeerHangup", Ret: endB, Done: true})
+	close(p.w.gate(750))
+	if !waitUntil(func() bool {
+		for _, e := range p.w.Events() {
+			if e.Kind == "ctxerr" {
+				return true
+			}
+		}
+		return false
+	}, 3*time.Second) {
+		rec.Notes = append(rec.Notes, "handler did not finish after its gate opened")
+	}
+	p.l.CancelA()
+	p.l.CancelB()
+	select {
+	case <-p.l.ErrA:
+	case <-time.After(3 * time.Second):
+		rec.Notes = append(rec.Notes, "LINK-A-DID-NOT-RETURN")
+	}
+	if !waitUntil(func() bool { return len(p.a.Remotes()) == 0 && len(p.b.Remotes()) == 0 }, 3*time.Second) {
+		rec.Notes = append(rec.Notes, "REMOTE-STILL-ENUMERATED-AFTER-TEARDOWN")
+	}
+	time.Sleep(2 * time.Millisecond)
 	rec.Events = p.w.Events()
 	return rec
 }
